@@ -87,6 +87,38 @@ def snapshot(nl, L):
     return {"name": json.dumps(name) if isinstance(name, str) else None, "data": _data(nl), "top": top, "libs": libs}
 
 
+def data_shapes(nl, L):
+    """identity and order of every container stored as a data value (the same list / dict objects must
+    still be there, with their elements and keys in the same order), per element and key"""
+    def shape(v):
+        if isinstance(v, list):
+            return ["L", L.of(v), [shape(x) for x in v]]
+        if isinstance(v, tuple):
+            return ["T", [shape(x) for x in v]]
+        if isinstance(v, dict):
+            return ["D", L.of(v), [[str(k), shape(x)] for k, x in v.items()]]
+        if isinstance(v, (set, frozenset)):
+            return ["S", L.of(v), sorted(repr(x) for x in v)]
+        return repr(v)
+    out = []
+
+    def visit(e):
+        for k, v in e._data.items():
+            if isinstance(v, (list, dict, set, tuple)):
+                out.append([L.of(e), str(k), shape(v)])
+    visit(nl)
+    if nl._top_instance is not None:
+        visit(nl._top_instance)
+    for lib in nl._libraries:
+        visit(lib)
+        for d in lib._definitions:
+            visit(d)
+            for x in list(d._ports) + list(d._cables) + list(d._children):
+                visit(x)
+    out.sort(key=lambda r: (r[0], r[1]))
+    return out
+
+
 def snap_diff(a, b, path=""):
     """first difference of two snapshots, as a short string"""
     if type(a) is not type(b):
@@ -223,6 +255,33 @@ def decorate(nl, rng):
                     c["VERILOG.CableType"] = rng.choice(["wire", "tri"])
     if rng.random() < 0.3:
         nl["EBLIF.comment"] = ["a comment "]
+    # user data that is a LIST of records, deliberately not in alphabetical order of their identifiers,
+    # with nested containers: a writer must not re-order, rebuild or replace it
+    def props():
+        ids = rng.sample(["ZETA", "init", "Beta", "alpha", "MID", "gamma", "Omega"], rng.randint(2, 4))
+        if ids == sorted(ids, key=str.lower):
+            ids.reverse()
+        out = []
+        for k, i in enumerate(ids):
+            pr = {"identifier": i, "value": rng.choice(["4'h8", 7, True, "x"])}
+            if rng.random() < 0.3:
+                pr = {"value": pr["value"], "identifier": i, "original_identifier": i + "[0]"}   # another key order
+            out.append(pr)
+        return out
+    for lib in nl.libraries:
+        for d in lib.definitions:
+            if rng.random() < 0.3:
+                d["EDIF.properties"] = props()
+            for k in d.children:
+                if rng.random() < 0.6:
+                    k["EDIF.properties"] = props()
+                if rng.random() < 0.15:
+                    k["user.nested"] = {"b": [3, 1, 2], "a": {"z": [], "y": [["q"], 0]}}
+            for x in list(d.ports) + list(d.cables):
+                if rng.random() < 0.2:
+                    x["EDIF.properties"] = props()
+    if nl.top_instance is not None and rng.random() < 0.3:
+        nl.top_instance["EDIF.properties"] = props()
 
 
 def build(src, tmpdir):
@@ -368,6 +427,10 @@ def sabotage(nl, kind, rng):
         rng.choice(kids).reference = None
     elif kind == "no_top":
         nl.top_instance = None
+    elif kind == "top_ref_none":
+        if nl.top_instance is None or nl.top_instance.reference is None:
+            return False
+        nl.top_instance.reference = None
     elif kind == "unnamed_top":
         if nl.top_instance is None or ".NAME" not in nl.top_instance:
             return False
@@ -383,7 +446,7 @@ def sabotage(nl, kind, rng):
     return True
 
 
-SABOTAGE = ["child_ref_none", "no_top", "unnamed_top", "unnamed_port", "unnamed_instance", "unnamed_cable", "unnamed_definition", "unnamed_library"]
+SABOTAGE = ["child_ref_none", "no_top", "top_ref_none", "unnamed_top", "unnamed_port", "unnamed_instance", "unnamed_cable", "unnamed_definition", "unnamed_library"]
 
 
 def do_compose(nl, path, inp):
@@ -406,6 +469,39 @@ def do_compose(nl, path, inp):
         nl.compose(path, **opt)
     else:
         sdn.compose(nl, path, **opt)
+
+
+def other_composes(hist, tag, tmpdir, fmt_good):
+    """history in ONE process: composes of OTHER netlists — most of them not composable, refused at
+    several points (before any output, in the middle of the output) — between the composes of the good
+    netlist.  Their outcome is not judged here; what they may not do is change what happens to the
+    good netlist afterwards."""
+    from common import gen
+    if not hist:
+        return []
+    rng = random.Random(stable_hash([hist.get("seed", 0), tag]))
+    log = []
+    for i in range(hist.get("n", 1)):
+        kind = rng.choice(["top_ref_none", "top_ref_none", "child_ref_none", "no_top", "unnamed_port", "unnamed_instance",
+                           "unnamed_cable", "unnamed_definition", "unnamed_top", "none"])
+        fmt = fmt_good if rng.random() < 0.6 else rng.choice(["edif", "verilog", "eblif"])
+        api = rng.choice(["sdn.compose", "sdn.compose", "Netlist.compose", "class"])
+        try:
+            junk = gen.gen_netlist(random.Random(rng.randrange(1 << 30)), n_libs=(1, 1), n_leaf=(1, 2), n_mid=(1, 2), max_children=2)
+            if fmt == "eblif":
+                list(junk.libraries)[0].name = "hdi_primitives"
+            if kind != "none":
+                sabotage(junk, kind, rng)
+        except Exception:  # noqa
+            continue
+        path = os.path.join(tmpdir, "other_%s_%d%s" % (tag, i, EXT[fmt]))
+        try:
+            do_compose(junk, path, {"fmt": fmt, "api": api, "options": {}})
+            log.append("%s.%s.composed" % (fmt, kind))
+        except Exception:  # noqa
+            log.append("%s.%s.refused" % (fmt, kind))
+        junk = None
+    return log
 
 
 def case_body(inp, tmpdir):
@@ -440,6 +536,8 @@ def case_body(inp, tmpdir):
     L = Labels()
     res["wf0"] = canon.wf_problems(nl)
     s0 = snapshot(nl, L)
+    sh0 = data_shapes(nl, L)
+    hist = inp.get("history")
     if fmt == "edif":
         try:
             res["depL"], res["depD"] = edif_oracles(nl, L)
@@ -474,7 +572,9 @@ def case_body(inp, tmpdir):
     res["fd_leak"] = n_fds() - fd0
     texts.append(t_later)
     s1 = snapshot(nl, L)
+    sh1 = data_shapes(nl, L)
     res["wf1"] = canon.wf_problems(nl)
+    res["hlog"] = other_composes(hist, "a", tmpdir, fmt)
     with warnings.catch_warnings(record=True) as wlist:
         warnings.simplefilter("always")
         try:
@@ -486,6 +586,7 @@ def case_body(inp, tmpdir):
     s2 = snapshot(nl, L)
     res["nq"], res["qlog"] = queries(nl, qrng)
     s2q = snapshot(nl, L)
+    res["hlog"] += other_composes(hist, "b", tmpdir, fmt)
     with warnings.catch_warnings(record=True) as wlist:
         warnings.simplefilter("always")
         try:
@@ -495,8 +596,15 @@ def case_body(inp, tmpdir):
         except Exception as e:  # noqa
             res["third_raised"] = family(e)
     s3 = snapshot(nl, L)
+    sh3 = data_shapes(nl, L)
+    wlist = None
     gc.collect()
+    res["fd_end"] = n_fds() - fd0
     res["s0"], res["s1"] = s0, s1
+    res["shape1"] = next(([a, b] for a, b in zip(sh0, sh1) if a != b), None) if sh0 != sh1 else None
+    if sh0 != sh1 and res["shape1"] is None:
+        res["shape1"] = ["length", len(sh0), len(sh1)]
+    res["shape3"] = next(([a, b] for a, b in zip(sh1, sh3) if a != b), ["length", len(sh1), len(sh3)]) if sh1 != sh3 else None
     res["d12"] = snap_diff(s1, s2)
     res["d2q"] = snap_diff(s2, s2q)
     res["d23"] = snap_diff(s2q, s3)
@@ -572,7 +680,7 @@ def judge(sr, drv, inp, res):
     sizes = res["sizes"]
     for q in set(res.get("qlog", [])):
         sr.dist("query.%s" % q)
-    sr.case(stable_hash([inp["source"], fmt, inp.get("options"), inp.get("api"), inp.get("name_none"), inp.get("qseed")]),
+    sr.case(stable_hash([inp["source"], fmt, inp.get("options"), inp.get("api"), inp.get("name_none"), inp.get("qseed"), inp.get("history")]),
             nontrivial=sizes[1] >= 2 and sizes[2] >= 1)
     sr.dist("%s.libs%d.defs%d" % (fmt, min(sizes[0], 3), min(sizes[1] // 3 * 3, 9)))
     sr.dist("%s.api.%s%s" % (fmt, inp.get("api", "sdn.compose"), ".unnamed_netlist" if inp.get("name_none") else ""))
@@ -606,6 +714,11 @@ def judge(sr, drv, inp, res):
                 sr.corr_mismatch("composePure: netlist after = netlist before", brief, "EBLIF.type added", "unchanged", signature=sig)
             else:
                 sr.corr_mismatch("composePure: netlist after = netlist before", brief, snap_diff(s0, s1), "unchanged")
+    if res.get("shape1") or res.get("shape3"):
+        sh = res.get("shape1") or res.get("shape3")
+        key = sh[0][1] if isinstance(sh[0], list) else "count"
+        sr.spec_failure("%s.compose.rearranges_or_replaces_data_container.%s" % (fmt, key), brief,
+                        "a list / dict stored as a data value is no longer the same object with the same order: %s" % json.dumps(sh)[:400])
     if res.get("wf0") == [] and res.get("wf1"):
         sr.spec_failure("%s.compose.breaks_wellformedness" % fmt, brief, str(res["wf1"][:3]))
     # ---- repeatable ----
@@ -619,6 +732,12 @@ def judge(sr, drv, inp, res):
         sr.spec_failure("%s.compose.second_text_differs" % fmt, brief, "composing twice in a row gives different text: %s" % res.get("textdiff"))
     elif not res.get("same13"):
         sr.spec_failure("%s.compose.text_differs_after_queries" % fmt, brief, "composing again after queries gives different text: %s" % res.get("textdiff"))
+    for h in res.get("hlog", []):
+        sr.dist("history.other." + h)
+    if res.get("fd_end", 0) > 0:
+        sr.spec_failure("%s.compose.history_leaves_file_open" % fmt, brief,
+                        "+%d open descriptors at the end of the case (three composes of the good netlist%s), after gc.collect()"
+                        % (res["fd_end"], ", other netlists' composes in between" if inp.get("history") else ""))
     # ---- file complete and closed on return ----
     if not res.get("complete_on_return"):
         sr.spec_failure("%s.compose.file_incomplete_on_return" % fmt, brief, "file content read on return differs from the content after gc")
@@ -734,6 +853,8 @@ def make_cases(rng, n, tier):
         if rng.random() < 0.12:
             inp["sabotage"] = rng.choice(SABOTAGE)
         inp["qseed"] = rng.randrange(1000)
+        if rng.random() < 0.4:
+            inp["history"] = {"seed": rng.randrange(1 << 30), "n": rng.randint(1, 3)}
         out.append(inp)
     return out
 
